@@ -31,7 +31,7 @@ Definition blk_fast_linked (st : nat -> lorc) (level : Z) (n : nat) (h x : list 
   let o := st n in
   if blk_guard x && (len x <=? LZ4_MAX_INPUT_SIZE) && lorc_consistent o h x then
     let r := fast_continue (lo_m o) (lo_c o) (lo_src o) (len x) (len x - 1) (fast_accel level) in
-    blk_out (r_ret r) (r_out r)
+    blk_out_g (r_ret r) (r_out r)
   else None.
 
 Theorem blk_fast_linked_contract st level : (forall n, lorc_ok (st n)) -> blk_contract strict_valid (blk_fast_linked st level).
@@ -43,7 +43,7 @@ Proof.
   unfold lorc_consistent in Gc. apply andb_true_iff in Gc. destruct Gc as [Gx Gh].
   apply list_eqb_eq in Gx. apply list_eqb_eq in Gh.
   destruct (Hst n) as (O1 & O2 & O3 & O4 & O5 & O6 & O7).
-  intros H. destruct (blk_out_some _ _ _ H) as (Hp & -> & _).
+  intros H. destruct (blk_out_g_some _ _ _ H) as (Hp & -> & _).
   pose proof (continue_decodes (lo_m (st n)) (lo_c (st n)) (lo_src (st n)) (len x) (len x - 1) (fast_accel level) (lo_H (st n))
                 O1 O2 O3 O4 ltac:(lia) O5 O6
                 (prelude_hist (lo_m (st n)) (lo_c (st n)) (lo_src (st n)) (len x) (lo_H (st n)) O2 O4 ltac:(lia) ltac:(lia) O7)) as HD.
@@ -57,7 +57,7 @@ Theorem blk_fast_linked_bytes st level : blk_bytes (blk_fast_linked st level).
 Proof.
   intros n h x c. unfold blk_fast_linked. cbv zeta.
   destruct (blk_guard x && (len x <=? LZ4_MAX_INPUT_SIZE) && lorc_consistent (st n) h x); [|discriminate].
-  intros H. destruct (blk_out_some _ _ _ H) as (_ & _ & Hb). exact Hb.
+  intros H. destruct (blk_out_g_some _ _ _ H) as (_ & _ & Hb). exact Hb.
 Qed.
 
 Print Assumptions blk_fast_linked_contract.
